@@ -18,7 +18,7 @@ SHARDS = {'quick': 16, 'thorough': 64}
 TIMEOUT = {'quick': 1500, 'thorough': 7200}
 MUST_HIT = ['Position.after-rejected-text', 'Position.nodes-compared', 'Position.multi-line-expression', 'Position.newline-in-end-keyword',
             'Position.comment-between-tokens', 'Totality.parsed', 'Totality.rejected', 'CpuBudget.guarded',
-            'Totality.unterminated-comment']
+            'Totality.unterminated-comment', 'Position.comment-with-other-line-boundary-character']
 MUST_REACH = ['bridgepoint/oal.py:set_positional_info', 'bridgepoint/oal.py:find_column',
               'bridgepoint/oal.py:OALParser.t_error', 'bridgepoint/oal.py:OALParser.p_error',
               'bridgepoint/oal.py:OALParser.t_COMMENT', 'bridgepoint/oal.py:OALParser.t_newline',
@@ -196,6 +196,8 @@ def run(ctx):
             ctx.count('position_programs')
         except Mismatch as e:
             ctx.violation(e.key, e.what, case=dict(text=e.what))
+    ctx.hit('Position.comment-with-other-line-boundary-character',
+            om.STATS.get('comment-with-other-line-boundary-character', 0))
     for _ in range(ctx.share(16000 if quick else 1500000)):
         k = rng.random()
         if k < 0.08:
